@@ -322,4 +322,22 @@ theorem mapM_ok_of_forall₂ {ε α β : Type} (f : α → Except ε β) :
   | nil => rfl
   | cons h1 _ ih => rw [List.mapM_cons, h1, ih]; rfl
 
+theorem mapM_ok_map {ε α β γ : Type} (f : α → Except ε β) (g : γ → β) {l : List α} {ds : List γ}
+    (h : List.Forall₂ (fun a d => f a = .ok (g d)) l ds) : l.mapM f = .ok (ds.map g) := by
+  induction h with
+  | nil => rfl
+  | cons h1 _ ih => rw [List.mapM_cons, h1, ih]; rfl
+
+theorem forall₂_imp_mem {α β : Type} {r s : α → β → Prop} {l1 : List α} {l2 : List β} (h : List.Forall₂ r l1 l2)
+    (himp : ∀ a b, b ∈ l2 → r a b → s a b) : List.Forall₂ s l1 l2 := by
+  induction h with
+  | nil => exact List.Forall₂.nil
+  | cons h1 _ ih =>
+    exact List.Forall₂.cons (himp _ _ List.mem_cons_self h1)
+      (ih (fun a b hb hr => himp a b (List.mem_cons_of_mem _ hb) hr))
+
+theorem forall₂_ne_nil {α β : Type} {r : α → β → Prop} {l1 : List α} {l2 : List β} (h : List.Forall₂ r l1 l2)
+    (hne : l2 ≠ []) : l1 ≠ [] := by
+  intro h1; subst h1; cases h; exact hne rfl
+
 end Simu.Params
